@@ -76,7 +76,8 @@ func (s *Service) Proposal(ctx context.Context,
 	// cancel the context to cancel the other requests.
 	ctx, cancel := context.WithTimeout(ctx, s.timeout)
 
-	proposalCh := make(chan *api.VersionedProposal, 1)
+	// Room for every provider's response, so that no provider is left blocked once we have returned.
+	proposalCh := make(chan *api.VersionedProposal, len(s.proposalProviders))
 	for name, provider := range s.proposalProviders {
 		go func(ctx context.Context, name string, provider eth2client.ProposalProvider, ch chan *api.VersionedProposal) {
 			log := s.log.With().Str("provider", name).Uint64("slot", uint64(opts.Slot)).Logger()
